@@ -4,7 +4,7 @@ The I_rdr measure (reachable decision regions), by Mages & Rohner
 
 from functools import reduce
 import numpy as np
-from scipy.spatial import ConvexHull
+from scipy.spatial import ConvexHull, QhullError
 from ..pid import BasePID
 
 __all__ = (
@@ -79,12 +79,17 @@ def cv_hull(p_S1_g_Tt, p_S2_g_Tt):
         # generate zonotopes and their convex hull
         points1 = reduce(lambda p, v: p + [(p[-1][0] + v[0], p[-1][1] + v[1])], channel1[1:], [channel1[0]])
         points2 = reduce(lambda p, v: p + [(p[-1][0] + v[0], p[-1][1] + v[1])], channel2[1:], [channel2[0]])
-        hull = ConvexHull([(b, a) for a, b in ([(0.0, 0.0)] + points1 + points2)])
+        try:
+            hull = ConvexHull([(b, a) for a, b in ([(0.0, 0.0)] + points1 + points2)])
+        except QhullError:
+            # every point lies on the diagonal up to rounding noise: an uninformative channel
+            return [(1, 1)]
         hull_points = [(a, b) for b, a in hull.points[hull.vertices].tolist()]
         # generate resulting channel from vertices
-        # order along the upper hull: both coordinates are non-decreasing there, up to rounding noise
+        # order along the upper hull: both coordinates are non-decreasing there, so their sum orders the
+        # vertices robustly even when one coordinate of two vertices agrees up to accumulated rounding noise
         hull_points = sorted([x for x in hull_points if x not in ((0, 0), (0.0, 0.0))],
-                             key=lambda x: (r_prec(x[0]), r_prec(x[1])))
+                             key=lambda x: x[0] + x[1])
         diff_list = zip([(0.0, 0.0)] + hull_points[:-1], hull_points)
         return [(r_prec(n[0] - m[0]), r_prec(n[1] - m[1])) for m, n in diff_list]
     return [(1, 1)]
